@@ -470,6 +470,7 @@ def fam_bound(tier, rng):
             t = Tx(2, [(pat.take(32), 1, b"", 0xFFFFFFFE)], [(9, b"\x51")], [els], 0x01020304, True)
             ops.append("visit tx n " + hx(t.enc()))
             ops.append("visit tx n " + hx(t.enc() + b"\xaa\xbb"))
+            ops.append("redb tx " + hx(t.enc()))
         # segwit transactions whose witness-stripped part is large (many inputs / a long script)
         t = Tx(2, [(pat.take(32), i, bytes([0x51] * (i % 4)), 0xFFFFFF00 + i % 200) for i in range(min(l, 300))],
                [(7, body)], [[bytes([i % 256])] if i % 5 == 0 else [] for i in range(min(l, 300))], 99, True)
@@ -728,6 +729,9 @@ def fam_krand(tier, rng):
         ops.append(f"cnew {cap}")
         used = []
         fresh = 0
+        # a third of the histories draw their keys from a handful: rejected duplicates, evictions and re-insertions of
+        # the same key then follow each other closely (state left behind by a rejected call shows up only then)
+        universe = rng.randrange(2, 9) if h % 3 == 0 else None
         for s in range(steps):
             if dist == "tiny":
                 l = rng.randrange(0, 4)
@@ -738,7 +742,11 @@ def fam_krand(tier, rng):
             else:
                 l = rng.randrange(0, cap + 2)
             r = rng.random()
-            if used and r < 0.25:
+            if universe is not None:
+                k = rng.randrange(universe)
+                if k not in used:
+                    used.append(k)
+            elif used and r < 0.25:
                 k = rng.choice(used)
             else:
                 k = fresh
